@@ -22,6 +22,10 @@ VARIANTS = [
     B("vals-start-second", "    start_time = ind2[0][0] * dt\n    end_time = ind2[0][-1] * dt\n", "    start_time = ind2[0][1] * dt\n    end_time = ind2[0][-1] * dt\n", "R-ENDS"),
     B("vals-se-swapped", "    if se:\n        return start_time, end_time\n    return end_time - start_time\n\n\ndef calc_sig_dur(",
       "    if se:\n        return end_time, start_time\n    return end_time - start_time\n\n\ndef calc_sig_dur(", "R-ENDS"),
+    B("vals-sum-of-ends", "    if se:\n        return start_time, end_time\n    return end_time - start_time\n\n\ndef calc_sig_dur(",
+      "    if se:\n        return start_time, end_time\n    return end_time + start_time\n\n\ndef calc_sig_dur(", "R-ENDS"),
+    B("obj-sum-of-ends", "    end_time = ind2[0][-1] * asig.dt\n    if se:\n        return start_time, end_time\n    return end_time - start_time\n",
+      "    end_time = ind2[0][-1] * asig.dt\n    if se:\n        return start_time, end_time\n    return end_time + start_time\n", "R-ENDS"),
     B("obj-difference-reversed", "    end_time = ind2[0][-1] * asig.dt\n    if se:\n        return start_time, end_time\n    return end_time - start_time\n",
       "    end_time = ind2[0][-1] * asig.dt\n    if se:\n        return start_time, end_time\n    return start_time - end_time\n", "R-ENDS"),
     B("obj-no-dt", "    start_time = ind2[0][0] * asig.dt\n", "    start_time = ind2[0][0]\n", "R-REL"),
